@@ -487,9 +487,9 @@ var _ = fmt.Sprint
 // handle after it.  Afterwards every method must fail with os.ErrClosed.
 func TestVerif_CloseRace(t *testing.T) {
 	tr := newTracer(t)
-	rounds := 150
+	rounds := 300
 	if vThorough() {
-		rounds = 4000
+		rounds = 6000
 	}
 	r := vRand(12)
 	for i := 0; i < rounds; i++ {
@@ -498,6 +498,9 @@ func TestVerif_CloseRace(t *testing.T) {
 		pr := newPeer(t, tr)
 		content := posData(64, byte(i))
 		pr.setFile(peerHandle("/f"), content)
+		// a slow transport: senders queue up on the connection's write mutex, which stretches the window between a
+		// method's check of the handle and its request reaching the wire
+		pr.c2s.afterWrite = func(b []byte) { time.Sleep(20 * time.Microsecond) }
 		cl, err := pr.client(MaxPacketChecked(32))
 		if err != nil {
 			t.Fatal(err)
@@ -521,7 +524,14 @@ func TestVerif_CloseRace(t *testing.T) {
 					default:
 					}
 					var err error
-					switch (g + k) % 5 {
+					op := (g + k) % 5
+					if i%2 == 0 {
+						op = (i / 2) % 5 // every other round all goroutines hammer the same method
+					}
+					if g == 0 && i%3 == 0 {
+						cl.Lstat("/other") // unrelated traffic on the same connection
+					}
+					switch op {
 					case 0:
 						_, err = f.ReadAt(buf, int64(k%50))
 					case 1:
